@@ -31,6 +31,8 @@ THEOREMS_AGG: List[str] = [
     _T + "aggregate_first_step_insensitive",
     _T + "aggregate_body_correct_widened",
     _T + "aggregate_is_fold_tok_partial",
+    _T + "aggregate_token_table",
+    _T + "aggregateRows_correct_miniaod_partial",
     _T + "aggExact_necessary_widened",
     _T + "aggExact_necessary_cast",
     _T + "aggregate_count_instance",
@@ -45,6 +47,7 @@ LEAN_SOURCES_AGG: List[str] = [
     "FaxVerif/Gen/AggWiden.lean",
     "FaxVerif/Gen/AggWidenCorrect.lean",
     "FaxVerif/Gen/AggExprCorrect.lean",
+    "FaxVerif/Gen/AggTok.lean",
     "FaxVerif/Gen/AggRowsCorrect.lean",
     "FaxVerif/Gen/AggDriver.lean",
     "FaxVerif/C01/TheoremsAgg.lean",
